@@ -1068,7 +1068,8 @@ func c12R1(st *c12State, h *c12Hook) {
 				}
 				n++
 				ok, why := true, ""
-				leaves := c.Slicer().Leaves(eng.Receiver(ci), func(v ssa.Value) bool { return c12IsCachesLookup(v, h.typ) })
+				// (the cache may be handed to a helper as a parameter: trace it into the call sites)
+				leaves := c.Slicer().WithUp().Leaves(eng.Receiver(ci), func(v ssa.Value) bool { return c12IsCachesLookup(v, h.typ) })
 				if len(leaves) == 0 {
 					ok, why = false, "decision cache of unknown origin"
 				}
